@@ -111,7 +111,7 @@ def generate(seed: int, tier: str = "quick") -> Dict[str, Any]:
             if k == "add":
                 op["eid"] = rng.choice(EXPLICIT_IDS) if rng.random() < p_explicit else None
                 op["fmt"] = rng.choice(["map", "map", "pairs", "labels", "rxnside", "pairs_str", "map_float",
-                                        "gen_labels", "gen_pairs", "zip_pairs"])
+                                        "gen_labels", "gen_pairs", "zip_pairs", "map_objkeys"])
             else:
                 op["style"] = rng.choice(["tight", "spaced", "star"])
                 op["suffix"] = rng.random() < 0.4
@@ -186,7 +186,22 @@ def _norm(side: List[List[Any]]) -> Dict[str, int]:
     return out
 
 
+class _Lbl:
+    """A caller's own species record: identity-hashed, rendered as its name (labels are normalised with str())."""
+
+    def __init__(self, name: str) -> None:
+        self.name = name
+
+    def __str__(self) -> str:
+        return self.name
+
+    __repr__ = __str__
+
+
 def _fmt_side(side: List[List[Any]], fmt: str) -> Any:
+    if fmt == "map_objkeys":
+        # distinct keys may denote the same species: their counts add up, as for pairs and labels
+        return {_Lbl(s): c for s, c in side}
     if fmt == "map":
         d: Dict[str, int] = {}
         for s, c in side:
@@ -447,7 +462,7 @@ def _run(case: Dict[str, Any], sim: Sim, world: World) -> None:
             r, p = _norm(op["r"]), _norm(op["p"])
             fr, fp = _fmt_side(op["r"], op["fmt"]), _fmt_side(op["p"], op["fmt"])
             outcome = apply_add(i, H, M, site, lambda: H.add_rxn(fr, fp, rule=op["rule"], edge_id=op["eid"]),
-                                r, p, op["rule"], op["eid"], exotic=op["fmt"] in ("pairs_str", "map_float"))
+                                r, p, op["rule"], op["eid"], exotic=op["fmt"] in ("pairs_str", "map_float", "map_objkeys"))
         elif k == "add_str":
             site = "add_rxn_from_str"
             r, p = _norm(op["r"]), _norm(op["p"])
